@@ -7,6 +7,8 @@
 package shares
 
 import (
+	"crypto/sha256"
+	"encoding/binary"
 	"fmt"
 	"math/big"
 	"os"
@@ -61,6 +63,11 @@ type Adapter struct {
 	tkey  storetypes.StoreKey
 	votes []abci.VoteInfo
 	debug bool
+	// memo of the two expensive observation functions (crisis invariants, drain), keyed by a digest of the
+	// stores they can depend on (staking, distribution, bank, gov, ibc-transfer, mint, slashing, params) and
+	// the block header's height and time: byte-identical inputs give identical results.
+	obsKeys []storetypes.StoreKey
+	memo    map[[32]byte][2]string
 }
 
 func (a *Adapter) key(d string) *helpers.Signer { return a.W.Key("shares/" + d) }
@@ -84,6 +91,14 @@ func New(t *testing.T, c Consts) *Adapter {
 	a := &Adapter{W: w, C: c, val: map[string]sdk.ValAddress{}, self: map[string]sdkmath.LegacyDec{}, debug: os.Getenv("VERIF_DEBUG") != ""}
 	a.skey = w.App.GetKey(stakingtypes.StoreKey)
 	a.tkey = w.App.GetTKey(paramstypes.TStoreKey)
+	for _, n := range []string{"staking", "distribution", "bank", "gov", "transfer", "mint", "slashing", "params"} {
+		k := w.App.GetKey(n)
+		if k == nil {
+			panic("no store " + n)
+		}
+		a.obsKeys = append(a.obsKeys, k)
+	}
+	a.memo = map[[32]byte][2]string{}
 	ctx := w.Ctx
 	if ctx.BlockTime().Unix() <= 0 {
 		ctx = ctx.WithBlockTime(time.Unix(1_700_000_000, 0).UTC())
@@ -363,15 +378,46 @@ func (a *Adapter) Project(ctx sdk.Context) any {
 	if len(inexact) > 0 {
 		exact = strings.Join(inexact, ";")
 	}
-	drain := "ok"
-	if a.C.Drain {
-		drain = a.drain(ctx)
+	dg := a.digest(ctx)
+	obs, hit := a.memo[dg]
+	if !hit {
+		obs = [2]string{a.invariants(ctx), "ok"}
+		if a.C.Drain {
+			obs[1] = a.drain(ctx)
+		}
+		a.memo[dg] = obs
 	}
 	return map[string]any{
 		"shares": shares, "valShares": valShares, "valTokens": valTokens, "den": den, "allow": allow,
 		"accrued": accrued, "recv": recv, "ubd": ubd,
-		"inv": a.invariants(ctx), "pay": a.getPay(ctx), "drain": drain, "exact": exact,
+		"inv": obs[0], "pay": a.getPay(ctx), "drain": obs[1], "exact": exact,
 	}
+}
+
+// digest hashes the content of the stores the observation functions can depend on, plus height and time.
+func (a *Adapter) digest(ctx sdk.Context) (out [32]byte) {
+	h := sha256.New()
+	var n [8]byte
+	put := func(b []byte) {
+		binary.BigEndian.PutUint64(n[:], uint64(len(b)))
+		h.Write(n[:])
+		h.Write(b)
+	}
+	for _, k := range a.obsKeys {
+		put([]byte(k.Name()))
+		it := ctx.KVStore(k).Iterator(nil, nil)
+		for ; it.Valid(); it.Next() {
+			put(it.Key())
+			put(it.Value())
+		}
+		it.Close()
+	}
+	binary.BigEndian.PutUint64(n[:], uint64(ctx.BlockHeight()))
+	h.Write(n[:])
+	binary.BigEndian.PutUint64(n[:], uint64(ctx.BlockTime().UnixNano()))
+	h.Write(n[:])
+	copy(out[:], h.Sum(nil))
+	return out
 }
 
 // invariants evaluates every invariant registered with the crisis keeper (staking, distribution, bank, gov, ...)
